@@ -399,6 +399,7 @@ func Orchestrate(cfg OrchConfig) int {
 	}
 	sort.Strings(sigs)
 	replayDir := filepath.Join(cfg.VerifDir, "replays", p.ID)
+	os.RemoveAll(replayDir) // witnesses of earlier runs (other seeds, seeded changes) would only confuse: one run, its own replays
 	os.MkdirAll(replayDir, 0o755)
 	unlisted := 0
 	knownHit := map[string]int{}
